@@ -53,6 +53,7 @@ func init() {
 				w.Write(bindMismatch{c.Text, where})
 			}
 			s := jschema.New("root", c.Text)
+			_ = s.AddType("@t", jschema.New("@t", "1"))
 			var ast jlib.ASTNode
 			o := guard(func() error {
 				if err := s.Check(); err != nil {
